@@ -67,6 +67,31 @@ def run(ctx):
             ok = "cell:SpillManager.active_files" in lx.tags(t["args"][0])
     ctx.ob("R1", "SpillManager::cleanup#removes-tracked", ok,
            what="SpillManager::cleanup does not remove the files recorded in active_files", where=cl.loc())
+    # ---- R3 run generation and run merge order rows the same way: the spilling sort sorts each run with
+    # push::sort::compare_rows and merges the runs with spill::external_sort::compare_rows. A run is only a valid merge
+    # input if both comparators define the same order; in particular a Descending key must reverse the same thing in
+    # both (the whole per-key ordering including NULL placement, or only the value comparison).
+    sibs = [P.fn("operators::push::sort::compare_rows"), P.fn("spill::external_sort::compare_rows")]
+    sigs = []
+    for f in sibs:
+        fx = FlowCx(P, f)
+        revs = [(bi, t) for bi, t in f.calls() if callee_name(t).endswith("Ordering::reverse")]
+        sig = set()
+        for bi, t in revs:
+            tg = fx.tags(t["args"][0])
+            sig |= {x for x in tg if x.startswith("agg:Ordering::")}
+            if any(x.startswith("call:") and x.endswith("compare_values") for x in tg):
+                sig.add("value-comparison")
+        # what the direction switch guards
+        dirs = sorted({x[2] for bi, t in revs for x in fx.facts_at(bi) if x[0] == "variant" and x[1].endswith("SortDirection")})
+        nulls = any(x.startswith("cell:SortKey.null_order") for b in f.blocks if not b["cl"] and b["t"]["k"] == "sw" for x in fx.tags(b["t"]["d"]))
+        sigs.append((frozenset(sig), tuple(dirs), nulls, len(revs)))
+    ctx.floor("R3", sum(s_[3] for s_ in sigs), 2, "Ordering::reverse sites in the run / merge comparators")
+    ctx.ob("R3", "sort-run-vs-merge-comparator", sigs[0] == sigs[1],
+           what="the comparator that sorts spilled runs and the comparator that merges them differ in what a Descending key "
+                "reverses (%s vs %s): runs are not ordered the way the merge expects, so a spilled sort returns rows in a "
+                "different order than the in-memory sort" % (sorted(sigs[0][0]), sorted(sigs[1][0])), where=sibs[1].loc())
+
     # ---- R2 = C16-R4 (spill codec)
     sub = type("Sub", (), {})()
     obs_before = len(ctx.obs)
